@@ -23,6 +23,9 @@ CHECKS = {
  "C07": ("exploration", "oracle monitor: Go time package vs timestamp() and datum timestamps, per line",
    "2.5k/80k (program, line sequence) cases over 23 layouts (Go reference layouts, syslog/apache variants, ambiguous pairs), 5 override time zones, current-year option on/off; rendered instants incl. DST fold/gap, invalid and repeated values, >64 distinct values, settime boundary values, lines with no time statement (clock bracket).",
    "Go's time package is the oracle; datum instants compared only when representable in int64 ns; year read before/after accepted for the current-year option.", "§4 C07"),
+ "C06": ("exploration", "differential monitor (together vs alone) + refusal model on a real Runtime+Store+Prometheus registry (under -race)",
+   "60/2500 sets of 1-4 programs from a family sharing the names x,y (same/different kind, Int/Float, 0-2 keys, hidden, syntax errors, runtime errors on half the lines), every load order for sets <=3, random orders with interleaved unload / comment-only reload / broken reload of other programs for sets of 4, with and without -omit_metric_source; each loaded program's projection of the store and of the scrape must equal the same program run alone on the same lines; refusal must follow the one permitted rule; refused programs export nothing.",
+   "The refusal model is the statement's single permitted interaction; barrier lines make processing complete before projection.", "§4 C06"),
  "C08": ("exploration", "runtime reference-model monitor (injective-key map, datum identity)",
    "All tuples of arity 1-2 over components of length<=3 from {'-','\\\\','a'} are created in one real Metric and datum identity is checked to be a bijection (covers every ordered pair of that universe); every pair colliding under a naive encoding, plus 20k/400k random adversarial pairs of arity 1-4, go through a create/set/find/expire/emit/remove/re-create sequence against a reference map.",
    "Held on the tuples/pairs executed; trusted: Go maps, pointer equality, the harness's injective encoding.", "§4 C08"),
